@@ -20,7 +20,9 @@ MethodSmall == {M("f1", "root", "shared", "t1", "P_"), M("f2", "root", "shared",
                 N(M("f1", "root", "unset", "none", "P_"), "dup"), N(M("f2", "api", "own", "none", "none"), "dup"), N(M("f3", "api", "unset", "t1", "none"), "dup"),
                 \* annotated methods next to unannotated ones: nothing of one may show up in the other's entry
                 F(M("f2", "root", "unset", "none", "none")), F(M("f3", "root", "own", "t1", "P_")), F(M("f4", "api", "shared", "none", "none")),
-                F(N(M("f1", "api", "unset", "none", "none"), "dup")), X(M("f4", "root", "unset", "none", "none")), X(M("f1", "root", "own", "t1", "P_"))}
+                F(N(M("f1", "api", "unset", "none", "none"), "dup")), X(M("f4", "root", "unset", "none", "none")), X(M("f1", "root", "own", "t1", "P_")),
+                \* exposed names that differ only in "." versus "_" on one endpoint
+                N(M("f1", "root", "unset", "none", "none"), "a.b"), N(M("f2", "root", "own", "none", "none"), "a_b")}
 Exposed(m) == IF m.name = "own" THEN m.fn ELSE m.name
 DistinctNames(s) == \A i, j \in DOMAIN s : i # j => ~(Exposed(s[i]) = Exposed(s[j]) /\ s[i].ep = s[j].ep)
 S(k, x, p, ms) == [kind |-> k, extractor |-> x, prefix |-> p, statusmap |-> "none", plan |-> "same", methods |-> ms]
@@ -28,7 +30,7 @@ SH(s) == [s EXCEPT !.plan = "shrink"]
 SM(s) == [s EXCEPT !.statusmap = "map"]
 InitN(A, n) == \E k \in Kinds : \E x \in Extractors(k), p \in {"none", "rpc"} :
                  \/ \E m1 \in MethodAlpha : InitWith(S(k, x, p, <<m1>>))
-                 \/ \E m1 \in A, m2 \in A : DistinctNames(<<m1, m2>>) /\ (InitWith(S(k, x, p, <<m1, m2>>)) \/ InitWith(SH(S(k, x, p, <<m1, m2>>))))
+                 \/ \E m1 \in A, m2 \in A : (n >= 3 \/ p = "none") /\ DistinctNames(<<m1, m2>>) /\ (InitWith(S(k, x, p, <<m1, m2>>)) \/ InitWith(SH(S(k, x, p, <<m1, m2>>))))
                  \/ n >= 3 /\ \E m1 \in A, m2 \in A, m3 \in A : DistinctNames(<<m1, m2, m3>>)
                        /\ (InitWith(S(k, x, p, <<m1, m2, m3>>)) \/ InitWith(SH(S(k, x, p, <<m1, m2, m3>>))))
 \* errors mapped to an HTTP status of their own (OpenAPI only); methods whose error sets for that status differ
